@@ -252,6 +252,13 @@ structure Lists (n : Nat) : Prop where
     countTNs C (mapS (tnameTy (visitTy P sc n)) ns s).1 = 0
   tname : ∀ t s, wfTN t = true → countTN C0 t = 0 → C.tyNode * typedCount [t] = 0 → kTN W t ≤ n →
     countTN C (tnameTy (visitTy P sc n) t s).1 = 0
+  branches : ∀ bs s, wfBranches bs = true → countBranches C0 bs = 0 → kBranches W bs ≤ n →
+    countBranches C (mapS (fun (p : Expr × Block) st =>
+      (((visitExpr P sc n p.1 st).1,
+          (visitBlock P sc n true p.2 (P.scope p.2 none (visitExpr P sc n p.1 st).2).2).1),
+        (visitBlock P sc n true p.2 (P.scope p.2 none (visitExpr P sc n p.1 st).2).2).2)) bs s).1 = 0
+  oelse : ∀ b s, wfOB b = true → countOB C0 b = 0 → kOB W b ≤ n →
+    countOB C (optS (fun blk st => visitBlock P sc n true blk (P.scope blk none st).2) b s).1 = 0
   stmts : ∀ ss s, wfSs ss = true → countSs C0 ss = 0 → kSs W ss ≤ n →
     countSs C (mapS (visitStmt P sc n) ss s).1 = 0
   olast : ∀ l s, wfOL l = true → countOL C0 l = 0 → kOL W l ≤ n → countOL C (optS (visitLast P sc n) l s).1 = 0
@@ -494,6 +501,8 @@ theorem succ_stmt (h : Cover P C C0 W) (n : Nat) (L : Level P sc C C0 W n) (LL :
   have Hinsp := tnameInsert_props (σ := σ) W
   have Hins1 := tnameInsert_single (σ := σ) W
   have Ltname := LL.tname
+  have Lbranches := LL.branches
+  have Loelse := LL.oelse
   have Hloc := count_insertLocals P C C0 W h
   have hA := h.afterStmtNode_id
   have hSc := h.scope_id
@@ -531,8 +540,7 @@ theorem succ_stmt (h : Cover P C C0 W) (n : Nat) (L : Level P sc C C0 W n) (LL :
     | ifs branches els =>
       simp only [wfS, Bool.and_eq_true, countS, kS, shallowS, Nat.add_eq_zero_iff, Nat.max_le] at gw gc gk gs
       simp only [hSc, hA, countS]
-      trace_state
-      sorry
+      grind
     | function name m body =>
       simp only [wfS, Bool.and_eq_true, countS, kS, shallowS, Nat.add_eq_zero_iff, Nat.max_le] at gw gc gk gs
       cases name with
@@ -540,21 +548,199 @@ theorem succ_stmt (h : Cover P C C0 W) (n : Nat) (L : Level P sc C C0 W n) (LL :
       | cons root path =>
         cases sc
         · cases body
-          simp only [hSc, hA, hAt, countS, if_true, if_false, Bool.false_eq_true]
-          trace_state
-          sorry
+          simp only [wfF, countF, kF, shallowF, Bool.and_eq_true, Nat.add_eq_zero_iff, Nat.max_le, Nat.mul_eq_zero] at gw gc gk gs
+          simp only [hSc, hA, hAt, countS, countF, if_true, if_false, Bool.false_eq_true]
+          grind
         · simp only [hSc, hA, hAt, countS, if_true, if_false, Bool.false_eq_true]
           grind
     | typeFn ex name body =>
       simp only [wfS, Bool.and_eq_true, countS, kS, shallowS, Nat.add_eq_zero_iff, Nat.max_le] at gw gc gk gs
       cases body
-      simp only [hSc, hA, hAt, countS, if_true, if_false, Bool.false_eq_true]
-      trace_state
-      sorry
+      simp only [wfF, countF, kF, shallowF, Bool.and_eq_true, Nat.add_eq_zero_iff, Nat.max_le, Nat.mul_eq_zero, List.isEmpty_iff] at gw gc gk gs
+      simp only [hSc, hA, hAt, countS, countF, if_true, if_false, Bool.false_eq_true]
+      grind
     | _ =>
       simp only [wfS, Bool.and_eq_true, countS, kS, shallowS, Nat.add_eq_zero_iff, Nat.max_le] at gw gc gk gs
       cases sc <;>
         (simp only [hSc, hA, hIF, countS, Hins, if_true, if_false, Bool.false_eq_true]
          grind)
+
+theorem args_single (k : ArgKind) (es : List Expr) (ha : argsOk k es = true) (hk : k ≠ .tuple) :
+    ∃ e, es = [e] ∧ shallowE C e = 0 := by
+  cases k with
+  | tuple => exact absurd rfl hk
+  | str =>
+    match es, ha with
+    | [.str b], _ => exact ⟨_, rfl, rfl⟩
+  | tbl =>
+    match es, ha with
+    | [.table b], _ => exact ⟨_, rfl, rfl⟩
+
+theorem lists_of_level (h : Cover P C C0 W) (n : Nat) (L : Level P sc C C0 W n) : Lists P sc C C0 W n := by
+  have Lty := L.ty
+  have Lexpr := L.expr
+  have Ltarget := L.target
+  have Lentry := L.entry
+  have Lseg := L.seg
+  have Lstmt := L.stmt
+  have Llast := L.last
+  have Lblock := L.block
+  have hSc := h.scope_id
+  refine ⟨?_, ?_, ?_, ?_, ?_, ?_, ?_, ?_, ?_, ?_, ?_, ?_, ?_, ?_, ?_⟩
+  · intro ts
+    induction ts with
+    | nil => intro s; simp [mapS, countTys]
+    | cons t ts ih =>
+      intro s hw hc h0 hk
+      simp only [wfTys, countTys, kTys, Bool.and_eq_true, Nat.add_eq_zero_iff, Nat.max_le] at hw hc hk
+      simp only [mapS, countTys]
+      grind
+  · intro t s hw hc h0 hk
+    cases t with
+    | none => simp [optS, countOTy]
+    | some t =>
+      simp only [wfOTy, countOTy, kOTy, optCount, Nat.mul_one] at hw hc hk h0
+      simp only [optS, countOTy]
+      grind
+  · intro es
+    induction es with
+    | nil => intro s; simp [mapS, countEs]
+    | cons t ts ih =>
+      intro s hw hc hk
+      simp only [wfEs, countEs, kEs, Bool.and_eq_true, Nat.add_eq_zero_iff, Nat.max_le] at hw hc hk
+      simp only [mapS, countEs]
+      grind
+  · intro t s hw hc hk
+    cases t with
+    | none => simp [optS, countOE]
+    | some t =>
+      simp only [wfOE, countOE, kOE] at hw hc hk
+      simp only [optS, countOE]
+      grind
+  · intro k es s ha hk hw hc hkk
+    obtain ⟨e, rfl, hsh⟩ := args_single C k es ha hk
+    simp only [wfEs, countEs, kEs, Bool.and_eq_true, Nat.add_eq_zero_iff, Nat.max_le] at hw hc hkk
+    simp only [mapS, countEs, Nat.add_zero]
+    apply L.node
+    intro s'
+    obtain ⟨x, y, z, w⟩ := h.nodePos e s' hw.1 hc.1 hsh
+    exact ⟨x, y, by omega, w⟩
+  · intro es
+    induction es with
+    | nil => intro s; simp [mapS, countEs]
+    | cons t ts ih =>
+      intro s hw hc hk
+      simp only [wfTargets, countEs, kEs, Bool.and_eq_true, Nat.add_eq_zero_iff, Nat.max_le] at hw hc hk
+      simp only [mapS, countEs]
+      grind
+  · intro es
+    induction es with
+    | nil => intro s; simp [mapS, countEntries]
+    | cons t ts ih =>
+      intro s hw hc hk
+      simp only [wfEntries, countEntries, kEntries, Bool.and_eq_true, Nat.add_eq_zero_iff, Nat.max_le] at hw hc hk
+      simp only [mapS, countEntries]
+      grind
+  · intro es
+    induction es with
+    | nil => intro s; simp [mapS, countSegs]
+    | cons t ts ih =>
+      intro s hw hc hk
+      simp only [wfSegs, countSegs, kSegs, Bool.and_eq_true, Nat.add_eq_zero_iff, Nat.max_le] at hw hc hk
+      simp only [mapS, countSegs]
+      grind
+  · intro es
+    induction es with
+    | nil => intro s; simp [mapS, countPairs]
+    | cons t ts ih =>
+      intro s hw hc hk
+      obtain ⟨a, b⟩ := t
+      simp only [wfPairs, countPairs, kPairs, Bool.and_eq_true, Nat.add_eq_zero_iff, Nat.max_le] at hw hc hk
+      simp only [mapS, countPairs]
+      grind
+  · intro es
+    induction es with
+    | nil => intro s; simp [mapS, countTNs]
+    | cons t ts ih =>
+      intro s hw hc h0 hk
+      cases t with
+      | mk nm ty =>
+        cases ty with
+        | none =>
+          simp only [wfTNs, wfTN, wfOTy, countTNs, countTN, countOTy, kTNs, kTN, kOTy, typedCount, Bool.and_eq_true,
+            Nat.add_eq_zero_iff, Nat.max_le] at hw hc hk h0
+          simp only [mapS, tnameTy, optS, countTNs, countTN, countOTy]
+          grind
+        | some ty =>
+          simp only [wfTNs, wfTN, wfOTy, countTNs, countTN, countOTy, kTNs, kTN, kOTy, typedCount, Bool.and_eq_true,
+            Nat.add_eq_zero_iff, Nat.max_le, Nat.mul_eq_zero] at hw hc hk h0
+          simp only [mapS, tnameTy, optS, countTNs, countTN, countOTy]
+          grind
+  · intro t s hw hc h0 hk
+    cases t with
+    | mk nm ty =>
+      cases ty with
+      | none => simp [tnameTy, optS, countTN, countOTy]
+      | some ty =>
+        simp only [wfTN, wfOTy, countTN, countOTy, kTN, kOTy, typedCount, Nat.mul_eq_zero] at hw hc hk h0
+        simp only [tnameTy, optS, countTN, countOTy]
+        grind
+  · intro es
+    induction es with
+    | nil => intro s; simp [mapS, countBranches]
+    | cons t ts ih =>
+      intro s hw hc hk
+      obtain ⟨a, b⟩ := t
+      simp only [wfBranches, countBranches, kBranches, Bool.and_eq_true, Nat.add_eq_zero_iff, Nat.max_le] at hw hc hk
+      simp only [mapS, countBranches]
+      grind
+  · intro t s hw hc hk
+    cases t with
+    | none => simp [optS, countOB]
+    | some t =>
+      simp only [wfOB, countOB, kOB] at hw hc hk
+      simp only [optS, countOB]
+      grind
+  · intro es
+    induction es with
+    | nil => intro s; simp [mapS, countSs]
+    | cons t ts ih =>
+      intro s hw hc hk
+      simp only [wfSs, countSs, kSs, Bool.and_eq_true, Nat.add_eq_zero_iff, Nat.max_le] at hw hc hk
+      simp only [mapS, countSs]
+      grind
+  · intro t s hw hc hk
+    cases t with
+    | none => simp [optS, countOL]
+    | some t =>
+      simp only [wfOL, countOL, kOL] at hw hc hk
+      simp only [optS, countOL]
+      grind
+
+theorem level_zero (h : Cover P C C0 W) : Level P sc C C0 W 0 := by
+  refine ⟨?_, ?_, ?_, ?_, ?_, ?_, ?_, ?_, ?_, ?_, ?_⟩
+  all_goals (intros; first | omega | skip)
+  -- `node`: the hypothesis on the hook's result asks for positive fuel
+  rename_i e s hg
+  have := (hg s).2.2.1
+  omega
+
+theorem level_all (h : Cover P C C0 W) : ∀ n, Level P sc C C0 W n := by
+  intro n
+  induction n with
+  | zero => exact level_zero P sc C C0 W h
+  | succ n ih =>
+    have LL := lists_of_level P sc C C0 W h n ih
+    exact ⟨succ_ty P sc C C0 W h n ih LL, succ_expr P sc C C0 W h n ih, succ_pref P sc C C0 W h n ih,
+      succ_target P sc C C0 W h n ih, succ_entry P sc C C0 W n ih, succ_seg P sc C C0 W n ih,
+      succ_node P sc C C0 W h n ih LL, succ_fnbody P sc C C0 W h n ih LL, succ_stmt P sc C C0 W h n ih LL,
+      succ_last P sc C C0 W h n LL, succ_block P sc C C0 W h n LL⟩
+
+/-- **Coverage.** A processor satisfying `Cover` brings the census `C` to zero on every
+well-formed block whose `C0` census is zero, provided the fuel is at least the block's need. -/
+theorem cover_block (h : Cover P C C0 W) (n : Nat) (b : Block) (s : σ) (hw : wfB b = true)
+    (hc : countB C0 b = 0) (hfuel : kB W b + 1 ≤ n) :
+    countB C (visitBlock P sc n true b s).1 = 0 :=
+  (level_all P sc C C0 W h n).block true b s hw hc hfuel
 end
 end DarkluaModel.C07
